@@ -90,13 +90,12 @@ def run_scenario(sc):
         for k in range(5):
             p = random_program(rng, burst=(k % 2 == 0), max_total=40)
             w = World(p, form=("list", "gen_yield", "single")[k % 3])
-            sim = w.build(early=k % 3)
+            sim = w.build(early=(3, 1, 0)[k % 3])     # the very first simulation has early events
             sim.run()
         return {"rc": 0}
     if kind == "lib":
         from harness import scenarios
-        scenarios.run(arg)
-        return {"rc": 0}
+        return {"rc": 0, "result": scenarios.run(arg)}
     raise SystemExit(f"unknown scenario {sc}")
 
 
